@@ -424,7 +424,12 @@ func genCi(r *Rng, i int) *CiCase {
 			}
 			op := CiOp{K: "write", Cid: cid, First: first, Last: first + int64(n) - 1, Mn: mn, Mx: mx}
 			if r.Chance(1, 25) { // malformed: a notification that is not the next one for the chunk
-				op.First += int64(r.PickInt(1, 300, 5500))
+				// forward (also around the "big gap" limit of 20 x 250 positions since the last index point) or backward
+				// (the uint32 difference of the positions wraps)
+				op.First += int64(r.PickInt(1, 300, 5500, 4750, 4999, 5000, 5001, -1, -10, -300))
+				if op.First < 0 {
+					op.First = 0
+				}
 				op.Last = op.First + int64(n) - 1
 			}
 			data[cid] = append(data[cid], tss...)
